@@ -363,8 +363,10 @@ func (ni *NodeInfo) IsTaskFitOnGpuGroup(resourceRequest *resource_info.ResourceR
 }
 
 func (ni *NodeInfo) EnoughIdleResourcesOnGpu(resources *resource_info.ResourceRequirements, gpuGroup string) bool {
-	if _, foundOnAllocated := ni.AllocatedSharedGPUsMemory[gpuGroup]; !foundOnAllocated {
-		// If a gpu group is not found in allocated, it's an indication that this group is pipelined
+	if allocated, foundOnAllocated := ni.AllocatedSharedGPUsMemory[gpuGroup]; !foundOnAllocated || allocated <= 0 {
+		// If a gpu group is not found in allocated, it's an indication that this group is pipelined.
+		// The same holds for a group whose allocated memory dropped back to zero: its entry stays in the
+		// map when the tasks that opened it are converted to pipelined, but it has no device yet.
 		return false
 	}
 	return ni.MemoryOfEveryGpuOnNode-ni.AllocatedSharedGPUsMemory[gpuGroup]-ni.GetResourceGpuMemory(resources) >= 0
